@@ -136,6 +136,36 @@ theorem C15_inherited_attr_single_store (T : Tree) (h : T.WF) (db : DB) (inv : N
     simp only [readVia, hget', readInst, hattr, if_true]
     rw [updateRow_spec]; simp [hr]
 
+/-- `obj.set(**kw)` mixing own and inherited attributes (distinct names): every named attribute is
+    stored in its declaring ancestor's row and reads back through every level; nothing else changes;
+    no row appears, disappears or changes its tag. -/
+theorem C15_set_single_store (T : Tree) (h : T.WF) (db : DB) (inv : NoOrphan T db)
+    (e i m : Nat) (kvs : List (Nat × Nat × Val)) (hget : get T db e i = .ok m)
+    (hattr : ∀ x, x ∈ kvs → attrOK T m x.1 x.2.1 = true)
+    (hdist : kvs.Pairwise (fun x y => ¬ (x.1 = y.1 ∧ x.2.1 = y.2.1))) :
+    ∃ db', setVia T db e i kvs = (db', .ok) ∧
+      (∀ a j k, (j ≠ i ∨ ∀ x, x ∈ kvs → ¬ (x.1 = a ∧ x.2.1 = k)) → cell db' a j k = cell db a j k) ∧
+      SameShape db db' ∧
+      (∀ x, x ∈ kvs → ∀ e', e' ∈ T.anc m → readVia T db' e' i x.1 x.2.1 = .val x.2.2) := by
+  obtain ⟨hleaf, _, _⟩ := get_ok_inv h inv hget
+  have hmrow : db.has m i = true := by obtain ⟨r, hr, _⟩ := hleaf; exact has_iff.mpr ⟨r, hr⟩
+  have hrows : ∀ x, x ∈ kvs → db.has x.1 i = true := by
+    intro x hx
+    have := hattr x hx
+    simp only [attrOK, Bool.and_eq_true, List.contains_iff_mem] at this
+    exact rows_up h inv i m hmrow x.1 this.1
+  obtain ⟨h1, h2⟩ := foldl_update_cells i kvs db hdist hrows
+  have hall : kvs.all (fun x => attrOK T m x.1 x.2.1) = true := by
+    rw [List.all_eq_true]; exact hattr
+  have hs := foldl_update_shape i kvs db
+  refine ⟨_, by simp [setVia, hget, setInst, hall], h2, hs, ?_⟩
+  intro x hx e' he'
+  have hget' := get_of_leaf h (hs.noOrphan inv) (leafRow_shape hs hleaf) he'
+  have hc := h1 x hx
+  simp only [readVia, hget', readInst, hattr x hx, if_true]
+  unfold cell at hc
+  rw [hc]
+
 /-- reads through every level of the chain agree and return the declaring ancestor's row -/
 theorem C15_reads_agree_across_levels (T : Tree) (h : T.WF) (db : DB) (inv : NoOrphan T db)
     (e i m a k : Nat) (hget : get T db e i = .ok m) (hattr : attrOK T m a k = true) :
@@ -238,6 +268,57 @@ theorem C15_destroy_removes_all_levels (T : Tree) (h : T.WF) (db : DB) (inv : No
     rw [if_neg this]
   · exact destroy_preserves h inv _ hleaf
 
+/-! ### class-level bulk deletes (`deleteMany`, `deleteBy`) — where the code violates the statement
+
+`InheritableSQLObject` inherits `SQLObject.deleteMany` / `deleteBy` unchanged: one raw DELETE on the
+table of the class they are called on.  "No sequence of operations leaves a row at one level
+without its counterparts" is therefore false once these two are counted as operations; the
+harness replays the witness on the real code (keys `C15:deleteBy-leaves-orphans`,
+`C15:deleteMany-leaves-orphans`). -/
+
+/-- full statement, false of the code: a `K3` exists (id 1), `K3.deleteBy()` removes only `K3`'s
+    row, `K1`'s row 1 keeps pointing to it -/
+theorem C15_bulk_delete_keeps_no_orphan_full_FALSE :
+    ¬ (∀ (T : Tree), T.WF → ∀ (db : DB), NoOrphan T db → ∀ (c : Nat) (f : Filter),
+        NoOrphan T (bulkDelete db c f)) := by
+  intro hall
+  have inv := hall T0 T0_wf db0 (C15_no_orphan_inv T0 T0_wf _) 3 .tt
+  have hc : ((bulkDelete db0 3 .tt) 1 1).map (·.child) = some (some 3) := by decide
+  cases hr : (bulkDelete db0 3 .tt) 1 1 with
+  | none => rw [hr] at hc; cases hc
+  | some r =>
+    rw [hr] at hc
+    have hrc : r.child = some 3 := by simpa using hc
+    have := (inv.down 1 1 r 3 hr hrc).2
+    revert this; decide
+
+/-- what does hold: a bulk delete on a class that is not part of a hierarchy (no parent, no
+    subclass) keeps the invariant -/
+theorem C15_bulk_delete_keeps_no_orphan_partial (T : Tree) (db : DB) (inv : NoOrphan T db)
+    (c : Nat) (f : Filter) (hroot : T.parent c = none) (hleaf : ∀ d, T.parent d ≠ some c) :
+    NoOrphan T (bulkDelete db c f) := by
+  constructor
+  · intro c' p' i hp' hrow
+    have hc' : c' ≠ c := by intro e; subst e; rw [hroot] at hp'; cases hp'
+    have hp'c : p' ≠ c := by intro e; subst e; exact hleaf c' hp'
+    have hrow' : db.has c' i = true := by
+      simpa [DB.has, bulkDelete, hc'] using hrow
+    obtain ⟨r, hr, hrc⟩ := inv.up c' p' i hp' hrow'
+    exact ⟨r, by simp [bulkDelete, hp'c, hr], hrc⟩
+  · intro p i r c' hr hrc
+    have hpc : p ≠ c := by
+      intro e; subst e
+      have hr' : db p i = some r := by
+        simp only [bulkDelete] at hr
+        split at hr
+        · cases hr
+        · exact hr
+      exact hleaf c' (inv.down p i r c' hr' hrc).1
+    have hr' : db p i = some r := by simpa [bulkDelete, hpc] using hr
+    obtain ⟨hpar, hrow⟩ := inv.down p i r c' hr' hrc
+    have hc'c : c' ≠ c := by intro e; subst e; rw [hroot] at hpar; cases hpar
+    exact ⟨hpar, by simpa [DB.has, bulkDelete, hc'c] using hrow⟩
+
 /-! ### the statements above in every reachable state -/
 
 /-- **C15 over histories**: after any history over any class tree, through every entry level:
@@ -266,11 +347,6 @@ theorem C15_history_consistent (T : Tree) (h : T.WF) (ops : List Op) :
 /-! ### Non-vacuity: the three-level hierarchy with sibling subclasses of the property statement
 
 `K0(2 cols) ← K1(1) ← {K3(1), K4(0 cols), K5(0 cols, not inheritable)}`, `K0 ← K2(1)`. -/
-
-/-- a K3, a K5 (column-less, reached through the shunt) and a K2 -/
-def db0 : DB := run T0
-  [.create 3 1 (fun a k => (10 * a + k : Nat)), .create 5 2 (fun _ _ => 7), .create 2 3 (fun _ _ => 1)]
-  DB.empty
 
 example : NoOrphan T0 db0 := C15_no_orphan_inv T0 T0_wf _
 example : (db0.has 0 1, db0.has 1 1, db0.has 3 1, db0.has 2 1, db0.has 4 1) = (true, true, true, false, false) := by
